@@ -82,6 +82,7 @@ struct KModel {
   using State = std::deque<int>;
   size_t k = 1;
   bool bounded = false;
+  bool lenient_full = false; // second pass: a rejected push is always admissible
   size_t segs = 1;
   const History* h = nullptr;
   std::vector<int> overlap;
@@ -92,7 +93,7 @@ struct KModel {
         return true;
       }
       // bounded: rejected only if at least (segments-1)*k+1 values are stored
-      return bounded && s.size() >= (segs - 1) * k + 1;
+      return bounded && (lenient_full || s.size() >= (segs - 1) * k + 1);
     }
     if (o.status == 1) {
       size_t lim = s.size() < k ? s.size() : k;
@@ -217,8 +218,38 @@ public:
       if (popped[v] && !pushed[v]) return c.fail("invented-value", "value %d popped but never successfully pushed", v);
       if (pushed[v] && !popped[v]) return c.fail("lost-element", "value %d was accepted but neither popped nor found by the final drain", v);
     }
-    check_linearizable(c, *this, m, KModel::State(), ops, "not-k-linearizable");
     c.state_hash = sh;
+    if (!m.bounded) {
+      check_linearizable(c, *this, m, KModel::State(), ops, "not-k-linearizable");
+      return;
+    }
+    // bounded variant: first the full statement; if that fails, find out whether only the "rejected although
+    // never (segments-1)*k+1 values stored" clause is violated (class spurious-full) or conservation/order
+    {
+      LinChecker<KModel> lc(c.hist, m, ops);
+      LinResult r = lc.run(KModel::State());
+      if (r.budget) {
+        c.checker_budget = true;
+        return;
+      }
+      if (r.ok) return;
+    }
+    KModel lenient = m;
+    lenient.lenient_full = true;
+    LinChecker<KModel> lc2(c.hist, lenient, ops);
+    LinResult r2 = lc2.run(KModel::State());
+    if (r2.ok) {
+      std::string rej;
+      for (int i : ops)
+        if (c.hist.ops[i].kind == OP_PUSH && c.hist.ops[i].status == 0) {
+          std::vector<int> one{i};
+          rej += describe_ops(c.hist, *this, one) + " ";
+        }
+      c.fail("spurious-full", "try_push was rejected although (segments-1)*k+1 = %zu values were never stored at any instant of the call "
+             "(history is k-linearizable only if rejections are unconstrained); rejected: %s", (m.segs - 1) * m.k + 1, rej.c_str());
+      return;
+    }
+    check_linearizable(c, *this, m, KModel::State(), ops, "not-k-linearizable");
   }
 };
 KHarness h;
